@@ -38,7 +38,7 @@ CLAIMED = {
         note="PARTIAL. Registered harnesses use per-instance constant mount prefixes with symbolic paths <= 5 bytes over {/,a,b}. NOT decided (harnesses exist but do not finish under CBMC and are kept in the unregistered 'experimental' tier): exact-route-over-mount precedence in Router::get (std HashMap), middleware re-wrapping on registration order, struct segments = RFC 6901 tokens and the 16-segment boundary (str::split/memchr/replace), owned-vs-borrowed agreement of the built-in JSON/typed/bulk handlers (serde / beve parsers are encoded even on rejected formats). Derive macro outside.",
         ref="DESIGN.md §4 C07"),
     "C08": dict(
-        text="Bulk path only: bulk encode -> bulk decode is bit-exact for every element bit pattern; streaming writer == buffered builder; aligned form lands the payload on an element boundary of the frame for every query residue 0..8 and survives into_wire_bytes; wrong body format / wrong element type rejected; complex pairs (Complex<f32>) round trip and stream identically. Plus the empty slice across the two codecs (real serde encoder inside the model): the bulk decoders read the generic encoder's output for an empty vector (f64, u8, i32, Complex<f32>) - this clause found genuine defect C08-D, repaired by e3e9105.",
+        text="Bulk path only: bulk encode -> bulk decode is bit-exact for every element bit pattern; streaming writer == buffered builder; aligned form lands the payload on an element boundary of the frame for every query residue 0..8 and survives into_wire_bytes; wrong body format / wrong element type rejected; complex pairs (Complex<f32>) round trip and stream identically. Plus the empty slice across the two codecs (real serde encoder inside the model): the bulk decoders read the generic encoder's output for an empty vector (f64, u8, i32, Complex<f32>), and so does the borrowing bulk route's decoder (decode_typed_slice_ref_body / _param, f64 and u8) - this clause found genuine defect C08-D, repaired by e3e9105.",
         note="PARTIAL: identity with the generic serde encoding and cross-decoding through serde for NON-EMPTY slices are NOT decided (beve's serde walk over elements exhausts memory under CBMC) - that is the first sentence of the property; the empty-slice instances have no symbolic payload (a single point of the input space, decided by symbolic execution of the real encoder + decoder); the empty slice through the server routes is shown only natively (findings/C08_empty_generic_demo.rs); 2 elements per instance; half floats and client/server routes over sockets outside; the borrowing bulk route (TypedSliceRefHandler, borrow-vs-copy by buffer alignment) needs > 11 GB per harness and is only in the unregistered 'experimental' tier.",
         ref="DESIGN.md §4 C08"),
     "C09": dict(
@@ -63,7 +63,7 @@ CLAIMED = {
         ref="DESIGN.md §4 C13"),
     "C14": dict(
         text="Only the mount clause: a registry mounted under a prefix receives exactly the paths at or below that prefix at a '/' boundary and strips exactly the prefix ('/' for the mount point itself); router-side matching and handler-side stripping agree, for symbolic paths.",
-        note="NARROW. The pointer layer (parse_pointer, canonical_key fast path vs re-canonicalising path, escape/unescape round trip, json_pointer::parse) has harnesses over symbolic strings of 2-3 bytes, but str::split / memchr / replace on symbolic bytes did not finish under CBMC (> 40 min, > 13 GB): they are kept in the unregistered 'experimental' tier and are NOT part of this claim. The JSON tree semantics, the call/read/write decision (std HashMap + serde_json), body decoding and linearizability are outside.",
+        note="NARROW. The pointer layer (parse_pointer, canonical_key fast path vs re-canonicalising path, escape/unescape round trip, json_pointer::parse) has harnesses over symbolic strings of 2-3 bytes, but str::split / memchr / replace on symbolic bytes did not finish under CBMC (> 40 min, > 13 GB), and even unescape_token alone on exactly 2 bytes / escape_token alone on 1 byte exhaust memory (15 GB / 37 GB: String growth from symbolic chars): they are kept in the unregistered 'experimental' tier and are NOT part of this claim. The JSON tree semantics, the call/read/write decision (std HashMap + serde_json), body decoding and linearizability are outside.",
         ref="DESIGN.md §4 C14"),
     "C17": dict(
         text="check_outbound exact over the full usize range; frame_outbound delivers at/below-limit and unlimited messages byte-for-byte unchanged and reports nothing; an oversized notify is dropped and reported once with exact size and limit; create_error_message yields a well-formed error reply.",
